@@ -677,7 +677,12 @@ def first_round(ctx, option, row):
     from src.scenarios.run_scenario import ScenarioRunner
     import src.optimizer.parameters as pm
     cap = {}
-    MD, FB = pm.MeatAndDairy, pm.FeedAndBiofuels
+    MD, FB, GH = pm.MeatAndDairy, pm.FeedAndBiofuels, pm.Greenhouses
+
+    class GH2(GH):
+        def __init__(self, *a, **k):
+            super().__init__(*a, **k)
+            cap["gh"] = self
 
     class MD2(MD):
         def __init__(self, *a, **k):
@@ -688,14 +693,14 @@ def first_round(ctx, option, row):
         def __init__(self, *a, **k):
             super().__init__(*a, **k)
             cap["fb"] = self
-    pm.MeatAndDairy, pm.FeedAndBiofuels = MD2, FB2
+    pm.MeatAndDairy, pm.FeedAndBiofuels, pm.Greenhouses = MD2, FB2, GH2
     try:
         with ctx.quiet(), np.errstate(all="ignore"):
             c, tc, sl = ScenarioRunner().set_depending_on_option(dict(option), country_data=row)
             cin = copy.deepcopy(c)
             out = pm.Parameters().compute_parameters_first_round(c, tc, sl)
     finally:
-        pm.MeatAndDairy, pm.FeedAndBiofuels = MD, FB
+        pm.MeatAndDairy, pm.FeedAndBiofuels, pm.Greenhouses = MD, FB, GH
     return cin, tc, out, cap
 
 
@@ -773,7 +778,9 @@ def check_real_rows(ctx, rows, options, prop):
             if cin["ADD_OUTDOOR_GROWING"]:
                 hd = cin["INITIAL_HARVEST_DURATION_IN_MONTHS"] + cin["DELAY"]["ROTATION_CHANGE_IN_MONTHS"]
                 w = cin["WASTE_DISTRIBUTION"]["CROPS"]
-                fr = model["fraction"]
+                fr = [float(x) for x in cap["gh"].greenhouse_fraction_area]  # the implementation's own fraction
+                if not tol_close(fr, model["fraction"]):
+                    ctx.disagree("row.greenhouse-fraction", case, fr[:50], model["fraction"][:50])
                 want = [(oc.KCALS_GROWN[i] if (cin["OG_USE_BETTER_ROTATION"] and i >= hd) else oc.NO_RELOCATION_KCALS_GROWN[i]) * (1 - fr[i]) * (1 - w / 100)
                         for i in range(n)]
                 if not tol_close(prod, want):
@@ -859,6 +866,7 @@ def restore_constants(d):
 def replay(ctx, rep, prop):
     """re-run exactly the recorded cases against the current /repo; a hit = the same violation key shows again"""
     hits = []
+    ctx.driver = "driver_supply"  # vcheck enters replay before it sets the property's driver
     for v in rep.get("violations", []):
         case = v["case"]
         before = len(ctx.violations)
